@@ -142,16 +142,26 @@ def h_numerical(E, credit):
     return 'ok'
 
 
-def h_sum(E):
+def h_sum(E, where):
+    """restricted constructs in the summand, the lower limit or the upper limit of a submitted sum"""
     import mitxgraders as m
     SX = make_sym_sampler(E, 'x', 1, 2)
     SC = make_sym_sampler(E, 'c', 2, 3)
+    pos = {'summand': {'summand': 1}, 'lower': {'lower': 1}, 'upper': {'upper': 1}, 'all': {'lower': 1, 'upper': 2, 'summand': 3}}[where]
     g = m.SumGrader(answers={'lower': '1', 'upper': '3', 'summand': 'x*n', 'summation_variable': 'n'}, variables=['x', 'c'], sample_from={'x': SX(), 'c': SC()},
-                    instructor_vars=['c'], blacklist=['cos'], forbidden_strings=['x*n'], samples=2, input_positions={'summand': 1})
-    for s in ['x*n', 'n*x + 0*cos(n)', 'n*x + c - c', 'n*x*c^0', 'x * n', 'n*x + 0*zz', 'n*x + 0*N']:
-        res = _run(E, g, s)
+                    instructor_vars=['c'], blacklist=['cos'], forbidden_strings=['x*n'] if where in ('summand', 'all') else [], samples=2, input_positions=pos)
+    honest = {'summand': 'n*x', 'lower': '1', 'upper': '3', 'all': ['1', '3', 'n*x']}[where]
+    if where == 'summand':
+        cheats = ['x*n', 'n*x + 0*cos(n)', 'n*x + c - c', 'n*x*c^0', 'x * n', 'n*x + 0*zz', 'n*x + 0*N']
+    elif where in ('lower', 'upper'):
+        v = honest
+        cheats = ['%s + 0*cos(0)' % v, '%s*cos(0)' % v, '%s + c - c' % v, '%s + 0*zz' % v, '%s + 0*floor(cos(x))' % v]
+    else:
+        cheats = [['1', '3*cos(0)', 'n*x'], ['1*cos(0)', '3', 'n*x'], ['1', '3', 'n*x+0*cos(n)'], ['1', '3 + c - c', 'n*x'], ['1 + 0*c', '3', 'n*x']]
+    for s_ in cheats:
+        res = _run(E, g, s_)
         E.check('restricted-construct-refused-never-credited', res[0] == 'refused')
-    res = _run(E, g, 'n*x')
+    res = _run(E, g, honest)
     E.check('honest-answer-graded', res[0] == 'ret' and res[1]['ok'] is True)
     return 'ok'
 
@@ -209,7 +219,8 @@ def harnesses(tier):
                 hs[-1].params = (ci, grader, credit)
     for credit in (1, 0.5):
         add(h_numerical, 'numerical', dict(credit=credit), 'symbolic constant')
-    add(h_sum, 'sum', {}, 'symbolic samples')
+    for where in ('summand', 'lower', 'upper', 'all'):
+        add(h_sum, 'sum', dict(where=where), 'symbolic samples; restricted construct in that field')
     add(h_siblings, 'siblings', {}, 'symbolic samples')
     for w in ('sub', 'nosub'):
         add(h_forbidden_spaces, 'forbidden_spaces', dict(which=w), 'a space (or none) at each of 5 gaps', validate=False)
